@@ -863,12 +863,12 @@ func c01Gen(g *Gen) {
 
 	// ---- the cache key is not of the established shape: search for two kinds sharing an entry
 	if v, _, _ := c01CacheKeyFact(); v != 0 {
-		for k := 0; k < 8; k++ {
-			c := &c01Case{mode: "a", rules: []c01Rule{mkRule("r", []string{"a.*", "*.t." + strconv.Itoa(k)}, nil, true)}, scope: globalScope}
-			for i := 0; i < 1200; i++ {
+		for k := 0; k < 16; k++ {
+			c := &c01Case{mode: "w", rules: []c01Rule{mkRule("r", []string{"a.*", "*.t." + strconv.Itoa(k)}, nil, true)}, scope: globalScope}
+			for i := 0; i < 300; i++ {
 				c.events = append(c.events, c01Event{name: "e", kind: []string{"b", fmt.Sprintf("y%d_%d", k, i)}})
 			}
-			for i := 0; i < 1200; i++ {
+			for i := 0; i < 300; i++ {
 				c.events = append(c.events, c01Event{name: "e", kind: []string{"a", fmt.Sprintf("x%d_%d", k, i)}})
 			}
 			emit(c, "cache-key-collision-search")
